@@ -107,6 +107,9 @@ class C02(GenCheck):
             return ["v", rng.choice(names)]
         if r < 0.6 and case["regs"]:
             kind, no = rng.choice(case["regs"])
+            if kind == "x" and rng.random() < 0.4:
+                # the SAME register read through its integer view: its content is the scaled number
+                return ["r", "sr", no]
             return ["r", kind, no]
         if r < 0.8:
             return ["c", rng.choice([0, 1, 2, 3, 7, 10, 100, 1000, 12345])]
@@ -223,6 +226,8 @@ class C02(GenCheck):
             return Fraction(x[1]), False
         if x[0] == "r":
             v = case["reginit"][x[2]]
+            if x[1] == "sr" and ("x", x[2]) in [tuple(r) for r in case["regs"]]:
+                return Fraction(self.const_scaled(v)), False          # the fixed-point register seen as an integer
             return (Fraction(str(v)), True) if x[1] == "x" else (Fraction(v), False)
         fmt = self.fmt_of(case, x[1])
         v = case["values"][x[1]]
@@ -295,6 +300,8 @@ class C02(GenCheck):
             if isinstance(x[1], float):
                 return f"(FConstF {cz(self.const_scaled(x[1]))})"
             return f"(FInt (EConst {cz(x[1])}))"
+        if x[0] == "r" and x[1] == "sr" and ("x", x[2]) in [tuple(r) for r in case["regs"]]:
+            return f"(FInt (EReg {cz(self.const_scaled(case['reginit'][x[2]]) % (1 << 64))} true true))"
         if x[0] == "r" and x[1] != "x":
             return f"(FInt (EReg {cz(case['reginit'][x[2]] % (1 << 64))} false {cbool(x[1] == 'sw')}))"
         if x[0] == "r":
@@ -430,7 +437,7 @@ class C02(GenCheck):
 
     def rule(self):
         return ("dest (x / q / Q / i / I) = tree of depth 1-3 over + - * / // % with x-format variables (scaled values incl. 29000, 99999, 10**9), integer "
-                "variables of all formats, x registers set from decimals (also negative ones), 32-bit integer registers, 10% with the fixed-point register as the destination of an expression that reads it, integer constants and float constants incl. 0.29, 0.57, 0.58, 1.15, 2.675, 4.35, "
+                "variables of all formats, x registers set from decimals (also negative ones), 32-bit integer registers, the fixed-point register also read through its integer view (sr), 10% with the fixed-point register as the destination of an expression that reads it, integer constants and float constants incl. 0.29, 0.57, 0.58, 1.15, 2.675, 4.35, "
                 "99999.99999, 0.00001; non-negative operand values (differences may be negative); checked when all scaled operands and intermediates fit; "
                 "a further twelfth of that number: 1-5 decimals (positive and negative, up to five fractional digits) assigned from Python to x-format array-map "
                 "or hash-map variables of a loaded program - the stored integer must be the exact scaled decimal")
